@@ -32,6 +32,7 @@ pub trait Field: Sized + Copy {
     spec fn fneg(self) -> Self;
     spec fn finv(self) -> Self;
     spec fn fzero() -> Self;
+    spec fn fone() -> Self;
     proof fn sub_add(a: Self, b: Self) ensures b.fadd(a.fsub(b)) == a;                       // b + (a-b) = a
     proof fn add_sub(a: Self, b: Self) ensures a.fadd(b).fsub(a) == b;                       // (a+b) - a = b
     proof fn add_neg(a: Self, c: Self) ensures a.fadd(c.fneg()) == a.fsub(c);                // a + (-c) = a - c
@@ -112,6 +113,10 @@ pub open spec fn operands_mapped<F>(e: Expr<F>, m: M) -> bool {
 pub open spec fn defined<F: Field>(e: Expr<F>, m: M, w: Seq<Option<F>>) -> bool {
     match e { Expr::Div { lhs, rhs } => v(m, w, rhs) != F::fzero(), _ => true }
 }
+/// the relation a constraint node asserts about its operands (assert_bool: the value is boolean); true for value nodes
+pub open spec fn node_asserts<F: Field>(e: Expr<F>, m: M, w: Seq<Option<F>>) -> bool {
+    match e { Expr::BoolCheck { val } => v(m, w, val).fmul(v(m, w, val).fsub(F::fone())) == F::fzero(), _ => true }
+}
 /// every constant node already lowered sits in a slot holding its value (what emit_constants' ops force)
 pub open spec fn consts_hold<F>(nodes: Seq<Expr<F>>, m: M, w: Seq<Option<F>>) -> bool {
     forall|id: ExprId| (id.0 as int) < nodes.len() && m.dom().contains(id) && (#[trigger] nodes[id.0 as int]) is Const
@@ -124,15 +129,15 @@ pub open spec fn new_consts_done<F: Field>(w: Seq<Option<F>>, ops0: Seq<Op<F>>, 
     forall|k: int| ops0.len() <= k < ops1.len() && (#[trigger] ops1[k]) is Const ==> op_done(w, ops1[k])
 }
 /// THE PROPERTY, per node: lowering node `id` (= expression e) extended the op list and the map so that
-///  (sound)    any complete witness table satisfying the new ops carries the node's value in the node's slot, and
+///  (sound)    any complete witness table satisfying the new ops carries the node's value in the node's slot and satisfies what the node asserts, and
 ///  (complete) the table carrying that value (and the values of freshly introduced constants) satisfies the new ops.
 pub open spec fn step_ok<F: Field>(nodes: Seq<Expr<F>>, m0: M, ops0: Seq<Op<F>>, m1: M, ops1: Seq<Op<F>>, id: ExprId, e: Expr<F>) -> bool {
     &&& m1.dom().contains(id) && m1 == m0.insert(id, m1[id])
     &&& is_prefix(ops0, ops1)
     &&& forall|w: Seq<Option<F>>| #![trigger new_ops_done(w, ops0, ops1)] total(w) && consts_hold(nodes, m0, w) && defined(e, m0, w) && new_ops_done(w, ops0, ops1)
-            ==> slot(w, m1[id]) == Some(node_val(e, m0, w))
+            ==> slot(w, m1[id]) == Some(node_val(e, m0, w)) && node_asserts(e, m0, w)
     &&& forall|w: Seq<Option<F>>| #![trigger new_consts_done(w, ops0, ops1)] total(w) && consts_hold(nodes, m0, w) && defined(e, m0, w) && new_consts_done(w, ops0, ops1)
-            && slot(w, m1[id]) == Some(node_val(e, m0, w)) ==> new_ops_done(w, ops0, ops1)
+            && slot(w, m1[id]) == Some(node_val(e, m0, w)) && node_asserts(e, m0, w) ==> new_ops_done(w, ops0, ops1)
 }
 pub open spec fn frame<F>(s0: LoweringState<'_, F>, s1: LoweringState<'_, F>) -> bool {
     s1.graph == s0.graph && s1.public_rows == s0.public_rows && s1.private_input_rows == s0.private_input_rows && s1.public_mappings == s0.public_mappings
